@@ -494,6 +494,10 @@ __goon:
 	for {
 		switch l.next() {
 		case utf8.RuneError:
+			if l.width != 1 {
+				// U+FFFD written out in valid UTF-8, not a decoding error
+				continue
+			}
 			l.errorf("invalid UTF-8 rune")
 			return lexRawString
 		case eof:
